@@ -56,6 +56,11 @@ CHECKS["C09"] = ("fvh-blackbox", "generated-dataset round trip through a real re
          "generated datasets (six types, sizes at the 6/14/32-bit length-encoding boundaries, binary and marker-equal strings, float-edge scores, u64-edge stream IDs, 16 databases, TTLs shorter and longer than the downtime) are loaded into a real server, dumped, SAVEd, the process is killed -9, kept down for a generated time and restarted on the same directory; the second dump must equal the first, PTTLs must lie in the interval the harness clock allows, keys whose deadline provably passed must be absent. The same datasets go through RdbEngine::save/load in-process at 10x the volume.",
          "sizes up to 70000 elements / bytes (2^20 and the >= 4 GiB path are out of reach); findings K07/K08 excluded while they reproduce", "3/C09")
 
+CHECKS["C10"] = ("fvh-inproc", "exhaustive fault injection over the write calls of a save + harness-owned save/writer races through sync-point hooks + prefix/substitution enumeration of damaged dumps",
+         "in-process with cfg(ferrous_verif) hooks. A: for generated datasets every write call of a save (all n while a save makes <= 3000 writes) is made to fail, as io::Error in SAVE, io::Error in BGSAVE and a panic in the BGSAVE thread; after each the previous dump must be byte-identical, the in-progress flag clear, and finally a plain save must load back to the dataset. B: the save thread is parked before a key is read, between its value and TTL reads, and inside the sorted-set encoder while generated mutations are applied; the file must load and hold a (value, TTL) state the key really had. C: every prefix and every single-byte substitution of valid dumps, plus spliced absurd length headers, under catch_unwind, watchdog and counting allocator.",
+         "fault points are write-call failures (no fsync exists to lose); race windows are the three read steps the writer has; allocation bound 1 MiB + 64 x file length", "3/C10")
+LEVEL = {"C10": "fault_enumeration"}
+
 checks = []
 for i in ids:
     if i in CHECKS:
@@ -67,7 +72,7 @@ for i in ids:
             "evidence_file": f"/verif/evidence/{i}.json",
             "replay_cmd_template": f"bin/check {i} --replay {{path}}",
             "engine": eng,
-            "level_claimed": {"category": "exploration", "text": text, "design_ref": "DESIGN.md section " + ref},
+            "level_claimed": {"category": LEVEL.get(i, "exploration") if 'LEVEL' in globals() else "exploration", "text": text, "design_ref": "DESIGN.md section " + ref},
             "level_note": note,
             "technique": tech,
         })
